@@ -15,8 +15,8 @@ mod verif_kani {
             assert!(is_name(s.as_bytes()), "O-name: an accepted key is [A-Za-z_][A-Za-z0-9_]*");
             assert!(!is_reserved(s.as_bytes()), "O-name: an accepted key is not a reserved word");
         }
-        kani::cover!(r);
-        kani::cover!(!r);
+        kani::cover!(is_name(s.as_bytes()));
+        kani::cover!(!is_name(s.as_bytes()));
     }
 
     //@harness props=C14,C12 kind=bounded tier=quick fns=is_valid_identifier bound="all ASCII strings of length <= 3" budget=300
